@@ -216,6 +216,16 @@ class VSymList(V):
     self.n, self.i, self.elem = n, i, elem
 
 
+class VListRef(V):
+  """python list of symbolic length (built by append inside a loop, or the keys/values of a Counter): the state
+  {'n': z3 Int, 'elem': sample element or None} lives in path.lists[lid] (copied on fork)"""
+  def __init__(self, lid):
+    self.lid = lid
+
+  def __repr__(self):
+    return 'VListRef(%s)' % self.lid
+
+
 class VSet(V):
   """python set abstracted as membership predicate (z3 array elem -> Bool) + cardinality Int"""
   def __init__(self, mem, card, sort):
